@@ -54,6 +54,13 @@ DESC["C20"] = dict(technique=CASES + " (spec/Reveal.tla: the specification is a 
    text="Reach(t), the closure of the single allowed rewrite, is computed by TLC for ~15k (quick) trees; for every member TLC proves leaf-sequence preservation, non-growing depth, survival of parenthetical and NOT stacks and equality of the fully-unwrapped normal form; the real Reveal, executed under a watchdog on trees with mutex-enabled nodes, must return a member (a hang is a deadlock violation). Random deeper trees are validated by Check_Reveal.tla.",
    note="The property constrains what Reveal may do, not how much it must do: a Reveal that unwraps less is accepted. Exhaustive only within the stated families.")
 
+DESC["C04"] = dict(technique=CASES + " (spec/Codec.tla, Gen_Codec.tla, Check_Codec.tla)", design_ref="DESIGN.md section 4 C04",
+   text="UnmarshalSpec and Decode (Marshal) are TLA+ operators; TLC proves Decode(UnmarshalSpec(t)) = Struct(t) for ~3.4k enumerated trees (all of depth<=2/width<=2 over five kinds, nil leaves, Conditions with primitive / Stack / Condition expressions, plus depth-3 and case-fold / alias families) and emits the expected Unmarshal result; the real Unmarshal, the Marshal into a zero Stack in both call forms, a structural walk of the reconstruction, the second Unmarshal and IsEqual in both directions are compared. Random deeper trees are validated by Check_Codec.tla.",
+   note="Exhaustive only within the stated shapes; Conditions are valid ones (a Condition without operator unmarshals an untyped nil); capacity is not part of the generated trees.")
+DESC["C16"] = dict(technique=CASES + " (spec/Codec.tla with explicit nondeterminism for malformed input)", design_ref="DESIGN.md section 4 C16",
+   text="Decode is total over a junk universe; ~20k enumerated junk trees x 2 call forms x {zero, initialised} receivers are fed to the real Marshal under recover: it must return, report an error or leave an initialised receiver on which String / Unmarshal / IsEqual return normally; for well-formed input (labels in any case, unknown label => BASIC holding all entries, initialised receiver gains one element) the outcome is compared exactly. Random junk is validated by Check_Codec.tla.",
+   note="For malformed CONDITION rows and undecodable nested slices the specification is deliberately nondeterministic (error or any initialised stack).")
+
 def main():
     commits = subprocess.run(["git", "-C", "/repo", "log", "--format=%h %s", "--grep=^verif:"],
                              stdout=subprocess.PIPE, text=True).stdout.strip().splitlines()
